@@ -4,7 +4,7 @@
    [m] over the in-memory decoder (Entry::from_bytes) and the streaming one (Entry::from_read).
    U64 = 2^64; [len] is the length as N. *)
 From GixV.Base Require Import Bytes BytesFacts Outcome.
-From GixV.C07 Require Import Model ProofsHeader.
+From GixV.C07 Require Import Model Spec ProofsHeader ProofsDelta.
 Local Open Scope N_scope.
 
 (* Every header kind, every size below 2^64, every base distance below 2^64 (0 included) and every
@@ -34,3 +34,50 @@ Example header_RT_example :
     Ok ({| e_header := OfsDelta 18446744073709551615; e_size := 18446744073709551615;
            e_data_offset := 27 |}, [x80]).
 Proof. split; vm_compute; reflexivity. Qed.
+
+(* ---- deltas (Spec.v: instruction lists, git's byte encoding) ------------------------------------------ *)
+
+(* Applying the encoding git produces for ANY list of valid instructions (copy ranges inside the
+   base, 1 <= copy size < 2^24, offsets < 2^32, inserts of 1..127 bytes; zero operand bytes omitted,
+   size 0x10000 written as 0) to a target buffer of the right length yields exactly the bytes the
+   instructions denote; no panic, no hang. *)
+Theorem apply_is_semantics : forall base is, Forall (valid base) is ->
+  apply base (length (eval base is)) (encode_delta is) = Ok (eval base is).
+Proof. exact apply_git_encoded. Qed.
+
+(* The same for every admissible encoding, not only git's minimal one (a zero operand byte may be
+   written explicitly), and for a target buffer that is SHORTER than the output: apply then
+   returns the first [room] bytes without any error (std::io::Write for &mut [u8] truncates) —
+   git's patch_delta rejects such a delta. *)
+Theorem apply_any_encoding_truncates : forall base es room, Forall (evalid base) es ->
+  (room <= length (eval base (map fst es)))%nat ->
+  apply base room (encode_body es) = Ok (firstn room (eval base (map fst es))).
+Proof. exact apply_encoded. Qed.
+
+(* ... and a target buffer that is LONGER than the output makes apply panic (assert_eq!(target.len(), 0)) *)
+Theorem apply_short_output_panics : forall base es room, Forall (evalid base) es ->
+  (length (eval base (map fst es)) < room)%nat -> apply base room (encode_body es) = Panic.
+Proof. exact apply_encoded_short. Qed.
+
+(* Malformed input characterised: for ANY base, target length and delta bytes, apply either panics
+   or returns a completely written target; it never loops (the fuel length+1 suffices) and never
+   returns an error. *)
+Theorem apply_total : forall base n data,
+  apply base n data = Panic \/ exists r, apply base n data = Ok r /\ length r = n.
+Proof. exact ProofsDelta.apply_total. Qed.
+
+(* non-vacuity: copy "bc", insert "XY", copy the whole base; and a truncating target *)
+Example apply_example :
+  let base := bs "abcd" in
+  let is := [Copy 1 2; Insert (bs "XY"); Copy 0 4] in
+  Forall (valid base) is /\ eval base is = bs "bcXYabcd" /\
+  encode_delta is = map N2b [145;1;2; 2;88;89; 144;4] /\
+  apply base 8 (encode_delta is) = Ok (bs "bcXYabcd") /\
+  apply base 3 (encode_delta is) = Ok (bs "bcX") /\
+  apply base 9 (encode_delta is) = Panic /\
+  apply base 8 (map N2b [145;1]) = Panic /\ apply base 0 [x00] = Panic.
+Proof.
+  cbv zeta. split.
+  { repeat constructor; vm_compute; try discriminate; reflexivity. }
+  repeat split; vm_compute; reflexivity.
+Qed.
